@@ -186,6 +186,15 @@ def trace_validation(ctx, rnd):
                 s0['d'] = list(rnd.choice([d for d in geomgen.DIRS if d[2] <= 5]))
         s = geomgen.scale_shape(s0, n)
         U = 2 * n
+        if i % 4 == 3:
+            # centre masks of annuli and compounds whose centres sit at quarter / eighth pixel offsets: the inner and the
+            # outer bounding box are then padded asymmetrically
+            n = 1
+            U = rnd.choice([4, 8])
+            if rnd.random() < 0.7:
+                s = geomgen.simple(rnd, ['cannulus', 'eannulus', 'rannulus'], cmax=2 * U, smax=3 * U, small_dirs=True)
+            else:
+                s = geomgen.compound(rnd, rnd.randint(1, 2), cmax=2 * U, smax=3 * U, small_dirs=True)
         tx, ty = rnd.choice([(0, 0), (3, -5), (1000, 77), (-10000, 4096)])
         fr = geom.Frame(U, 1.0, float(tx), float(ty), rnd.randint(0, 5))
         try:
